@@ -20,6 +20,14 @@ def run(ctx):
     r.not_decided = ["a single module whose start overhang is its own reverse complement (the property text does not settle the expected outcome)",
                      "equality of overhangs differing in case (C18)"]
     run_kernels(ctx, ["K0", "K15", "K14", "K10", "K1"], "C03")
+    # the overhang graph is made of what the classes report: for every concrete class of the kits groups 1 and 3 of the
+    # structure must be the sticky ends its own cutter leaves (a vector that reports another four letters never closes a
+    # chain that is complete, and closes chains that are not)
+    from ..rules_pattern import geometry
+    for kc in ctx.inventory:
+        if kc.concrete:
+            ctx.guard(geometry, ctx, kc, "C03.kit-geometry")
+    r.floor("C03.kit-geometry.groups", 80)
     ctx.guard(k17_entry, ctx, "C03")
     ctx.guard(order_independence_rule, ctx, "C03.order-independence")
     from ..rules_misc import collect_walk_effects, consistent_equality_rule
